@@ -229,7 +229,11 @@ func init() {
 	bin("#", "%s # %s", eqSigs, [2]string{"any", "any"}, tla.ModuleNotEqualsSymbol).Refine = seqFnRefine
 	add(&opDef{Name: "Assert", Tmpl: `Assert(%s, "m")`, Sigs: [][]string{{"BOOL"}}, Ill: []int{0}, Need: []string{"bool"},
 		Go: func(a []tla.Value) tla.Value { return tla.ModuleAssert(a[0], tla.MakeString("m")) }})
-	add(&opDef{Name: "ToString", Tmpl: "ToString(%s)", Sigs: [][]string{{"ANY"}}, Need: []string{"any"}, ToStr: true,
+	// nested collections of up to 3 members: their printed form must not depend on the insertion order at any level
+	dom["TOSTR_NESTED"] = []string{"{1, 2}", "{1, 2, 3}", "{{1, 3}, {2}}", "{{1, 2, 3}, {2}, {1, 3}}", "[a |-> 1, b |-> 2]",
+		"[a |-> {1, 2}, b |-> <<{2, 3}>>]", "(0 :> 1 @@ 1 :> 2 @@ 2 :> 3)", "<<{1, 2}, {2, 3}>>", "{[a |-> 1, b |-> 2], [a |-> 2, b |-> 1]}",
+		"{<<1, 2>>, <<2, 1>>, <<>>}", "({1, 2} :> {3, 4})", `{"b", "a", "c"}`}
+	add(&opDef{Name: "ToString", Tmpl: "ToString(%s)", Sigs: [][]string{{"ANY"}, {"TOSTR_NESTED"}}, Need: []string{"any"}, ToStr: true,
 		Go: func(a []tla.Value) tla.Value { return tla.ModuleToString(a[0]) }})
 
 	// --- arithmetic
@@ -375,6 +379,34 @@ func init() {
 			}
 		}
 	}
+	// sets whose members are themselves sets / records / functions of up to 3 members: the candidates of CHOOSE
+	// (and what \A, \E, refinement iterate over) then have a construction order of their own
+	dom["QSET_SET"] = []string{"{}", "{{}}", "{{1, 3}, {2}}", "{{1, 2, 3}, {2}, {1, 3}}", "{{2}, {1, 3}, {1, 2}}", "{{}, {1}, {1, 2}}"}
+	dom["QSET_REC"] = []string{"{}", "{[a |-> 1, b |-> 2], [a |-> 2, b |-> 1]}", "{[a |-> 1, b |-> 2], [a |-> 1, b |-> 1], [a |-> 0, b |-> 3]}"}
+	dom["QSET_FN"] = []string{"{(0 :> {1, 2} @@ 1 :> {3}), (0 :> {2} @@ 1 :> {3, 4})}", "{<<{1, 2}, {3}>>, <<{2}, {1, 3}>>, <<{3, 1}>>}",
+		"{[a |-> {1, 2}, b |-> 0], [a |-> {2}, b |-> 0], [a |-> {}, b |-> 1]}"}
+	two := tla.MakeNumber(2)
+	nested := func(l lam, sig, S string) {
+		quant(l, sig, S)
+		for _, o := range ops[len(ops)-4:] {
+			o.Ill = nil
+		}
+	}
+	for _, l := range []lam{
+		{"TRUE", func(x []tla.Value) tla.Value { return tla.ModuleTRUE }},
+		{"x # {}", func(x []tla.Value) tla.Value { return tla.ModuleNotEqualsSymbol(x[0], tla.MakeSet()) }},
+		{`2 \in x`, func(x []tla.Value) tla.Value { return tla.ModuleInSymbol(two, x[0]) }},
+		{"Cardinality(x) = 2", func(x []tla.Value) tla.Value { return tla.ModuleEqualsSymbol(tla.ModuleCardinality(x[0]), two) }},
+	} {
+		nested(l, "QSET_SET", "N")
+	}
+	for _, l := range []lam{
+		{"TRUE", func(x []tla.Value) tla.Value { return tla.ModuleTRUE }},
+		{"x.a = 1", func(x []tla.Value) tla.Value { return tla.ModuleEqualsSymbol(x[0].ApplyFunction(tla.MakeString("a")), one) }},
+	} {
+		nested(l, "QSET_REC", "R")
+	}
+	nested(lam{"TRUE", func(x []tla.Value) tla.Value { return tla.ModuleTRUE }}, "QSET_FN", "F")
 	le := func(x []tla.Value) bool { return tla.ModuleLessThanOrEqualSymbol(x[0], x[1]).AsBool() }
 	add(&opDef{Name: `\A x \in S, y \in T : x <= y`, Key: `\A`, Tmpl: `\A x \in %s, y \in %s : x <= y`, Sigs: [][]string{{"SET_INT", "SET_INT"}}, Need: []string{"set", "set"},
 		Go: func(a []tla.Value) tla.Value { return tla.QuantifiedUniversal([]tla.Value{a[0], a[1]}, le) }})
